@@ -28,7 +28,7 @@ GenFilters ==
   \cup {Q(n, "", "", "") : n \in Names}
 
 \* generator alphabet: all writes and point reads, the list filters, the selector shapes above
-GenMenu == Creates \cup Updates \cup Gets \cup Deletes
+GenMenu == Creates \cup Updates \cup Gets \cup Deletes \cup Modifies
            \cup {MkCall("list", "", 0, "", 0, q) : q \in GenFilters}
            \cup {MkCall("query", "", 0, "", 0, q) : q \in GenSels}
 
@@ -44,6 +44,7 @@ EnumMenu ==
    MkCall("update", N1, 1, S2, 2, NoSel), MkCall("update", N1, 2, S2, 1, NoSel), MkCall("update", N2, 1, S1, 2, NoSel),
    MkCall("get", N1, 1, "", 0, NoSel), MkCall("get", N1, 2, "", 0, NoSel), MkCall("get", N2, 1, "", 0, NoSel),
    MkCall("delete", N1, 1, "", 0, NoSel), MkCall("delete", N1, 2, "", 0, NoSel), MkCall("delete", N2, 1, "", 0, NoSel),
+   MkCall("modify", N1, 1, S2, 0, Q(N1, "helm", "", "")),
    MkCall("list", "", 0, "", 0, NoSel),
    MkCall("query", "", 0, "", 0, Q(N1, "helm", "", "")),
    MkCall("query", "", 0, "", 0, Q(N1, "helm", S1, "")),
